@@ -22,11 +22,20 @@ def comps_of(name):
     return tlvref.name_from_uri('/' + '/'.join(name)) if name else []
 
 
+def _real_uri_part(part):
+    """the scenario's compact `<type>=~rep:<n>:<hex>` spelling is private to the simulator: spell it as a real NDN URI"""
+    head, sep, tail = part.partition('=')
+    if sep and tail.startswith('~rep:'):
+        _r, n, hx = tail.split(':')
+        return head + '=' + ''.join('%%%02X' % b for b in bytes.fromhex(hx) * int(n))
+    return part
+
+
 def name_in_repr(name, rep):
     """The same name in the representation the scenario asks for."""
     comps = comps_of(name)
     if rep == 'uri':
-        return '/' + '/'.join(name)
+        return '/' + '/'.join(_real_uri_part(s_) for s_ in name)
     if rep == 'strlist':
         # in a component list a str is a literal generic value, not URI syntax: typed/escaped ones go as bytes
         return [s_ if s_.isalnum() else bytes(c) for s_, c in zip(name, comps)]
@@ -158,6 +167,9 @@ def wrap_lp(fragment, lp):
     """lp: {'token': hex|None, 'hdr': [[type, hex], ...] (already in legal order), 'nack': reason|'none'|absent,
             'frag': [index,count]|absent, 'nofrag': bool}"""
     headers = []
+    for t, hx in lp.get('hdr', []):
+        if t < tlvref.T_LP_FRAG_INDEX:
+            headers.append((t, bytes.fromhex(hx)))      # Sequence (0x51) precedes the fragmentation headers
     if 'frag' in lp:
         fi, fc = lp['frag']
         if fi is not None:
@@ -171,7 +183,8 @@ def wrap_lp(fragment, lp):
         inner = b'' if r in (None, 'none') else tlvref.tlv(tlvref.T_LP_NACK_REASON, tlvref.nni(r))
         headers.append((tlvref.T_LP_NACK, inner))
     for t, hx in lp.get('hdr', []):
-        headers.append((t, bytes.fromhex(hx)))
+        if t >= tlvref.T_LP_FRAG_INDEX:
+            headers.append((t, bytes.fromhex(hx)))
     return tlvref.make_lp(None if lp.get('nofrag') else fragment, headers)
 
 
@@ -253,6 +266,15 @@ def classify(wire, lp_mode='lib'):
             if c['kind'] == 'interest':
                 c['token'] = lp.pit_token
             return c
+        if wire and wire[0] == tlvref.T_LP_PACKET:
+            # whatever the library's envelope decoder says: an envelope that announces itself as a fragment
+            # (FragIndex or FragCount present) addresses nothing
+            try:
+                lp = tlvref.parse_lp(wire)
+                if lp.frag_index is not None or lp.frag_count is not None:
+                    return {'kind': 'junk', 'why': 'fragmented'}
+            except tlvref.TlvError:
+                pass
         return _classify(wire)
     except Exception:
         return {'kind': 'junk'}
